@@ -24,7 +24,7 @@ func runC10(c *Ctx) {
 	R.Rule("C10.R2", "declaration admission: in sanitizeStyles a declaration is appended to the kept list only across handler(v)==true, stringInSlice(v, enum) or regexp.MatchString(v) of a rule registered for the derived property in the element's or the global style table; the property is derived from dec.Property only by ToLower and TrimPrefix of constant vendor prefixes; v is removeUnicode(ToLower(dec.Value)) in that order (escapes are decoded on the lower-cased text because the escape regexp only knows lower-case hex digits)")
 	R.Rule("C10.R3", "the output is rebuilt from kept declarations only: attr.Val is strings.Join(kept, \"; \") or \"\"; \"\" on a parse error; each kept string is dec.Property + \": \" + dec.Value of the declaration that was matched")
 	R.Rule("C10.R4", "a style rule always carries a matcher: in stylePolicyBuilder.OnElements/OnElementsMatching/Globally every appended stylePolicy had handler, enum or regexp stored with a value known non-nil on that path, css.GetDefaultHandler(property) being the last resort")
-	R.Rule("C10.R5", "unknown properties are rejected: css.GetDefaultHandler returns a non-nil entry of defaultStyleHandlers or BaseHandler; BaseHandler returns false on every path; stringInSlice returns true only across an equality test of an element with the needle")
+	R.Rule("C10.R5", "unknown properties are rejected: css.GetDefaultHandler returns a non-nil entry of defaultStyleHandlers or BaseHandler; BaseHandler returns false on every path; stringInSlice returns true only across an equality test of an element with the needle, and that test is case-insensitive (the value is lower-cased, the enum entries are stored as written)")
 	R.Rule("C10.R6", "kept declarations stay in parse order: the kept list is only appended to inside the declaration loop and no sorting/reordering call occurs in sanitizeStyles")
 	R.Assume(TrustGo, "douceur ParseDeclarations is total and returns declarations in source order", "that the emitted original declaration means to a browser what the transformed copy the matcher saw means (CSS escapes/comments/!important) is NOT decided", "user-supplied handlers are pure")
 	F := model.FindFields(c.P)
@@ -845,4 +845,46 @@ func c10Fallback(c *Ctx) {
 		}
 		return false
 	}, "an equality test of a haystack element with the needle")
+	enumCaseRule(c, "C10.R5")
+}
+
+// enumCaseRule: enum entries and the (lower-cased) value they are compared with agree in letter case.
+func enumCaseRule(c *Ctx, rule string) {
+	R := c.R
+	sis := c.P.Func(load.ModPath, "stringInSlice")
+	if sis == nil {
+		R.Unknown(rule, "stringInSlice:case", "stringInSlice", "", "not found")
+		return
+	}
+	// the value handed to the matchers is lower-cased (C10.R2) while MatchingEnum stores its entries as given: the
+	// comparison has to be case-insensitive, or the entries have to be lower-cased when they are registered —
+	// otherwise an entry with an upper-case letter can never match and a conforming declaration is dropped
+	fold := false
+	exact := false
+	for _, b := range sis.Blocks {
+		for _, in := range b.Instrs {
+			switch x := in.(type) {
+			case *ssa.Call:
+				if ef := isCallTo(x, "strings.EqualFold"); ef != nil {
+					fold = true
+				}
+			case *ssa.BinOp:
+				if x.Op == token.EQL && (x.X == ssa.Value(sis.Params[0]) || x.Y == ssa.Value(sis.Params[0])) {
+					exact = true
+				}
+			}
+		}
+	}
+	lowered := false
+	if me := c.P.Func(load.ModPath, "(*stylePolicyBuilder).MatchingEnum"); me != nil {
+		for _, b := range me.Blocks {
+			for _, in := range b.Instrs {
+				if cl, ok := in.(*ssa.Call); ok && isCallTo(cl, "strings.ToLower") != nil {
+					lowered = true
+				}
+			}
+		}
+	}
+	R.Check(fold && !exact || lowered, rule, "stringInSlice:case", "stringInSlice / MatchingEnum: letter case of enum entries", c.P.Pos(sis.Pos()),
+		"case-insensitive comparison (strings.EqualFold)", "enum entries are compared case-sensitively with a lower-cased value and are not lower-cased on registration: an entry containing an upper-case letter never matches")
 }
